@@ -108,7 +108,7 @@ def one_case(ctx, base, k, rng):
         shape = rng.random()
         big = shape > 0.97
         ncoins = rng.choice([0, 1, 2, 3, 4, 5, 6, 8, 10, 12]) if not big else rng.choice([80, 250])
-        if not big and shape < 0.22:
+        if not big and shape < 0.30:
             ncoins = 0          # directed modes below bring their own coins
         coins = []
         total = 0
@@ -151,6 +151,15 @@ def one_case(ctx, base, k, rng):
             tx, outs = env.fund([rng.choice([150_000, 3_000_000]), 5 * COIN // 10], acc=env.accounts[0], verified=True)
             for o in outs:
                 coins.append({'id': len(coins) + 1, 'txo': o, 'amount': o.amount, 'confirmed': True, 'acc': 0})
+        elif not big and 0.22 <= shape < 0.30:
+            # directed: k near-equal coins, payment in the narrow band where j coins cover it nominally but not once
+            # the cost of spending them is taken off (accumulating strategies must draw one coin more)
+            mode = 'draw-band'
+            coins = []
+            amt = rng.choice([COIN, 5_000_000, 400_000])
+            tx, outs = env.fund([amt + rng.choice([0, 0, 1, 7]) for _ in range(rng.choice([3, 4, 5, 6]))], acc=env.accounts[0], verified=True)
+            for o in outs:
+                coins.append({'id': len(coins) + 1, 'txo': o, 'amount': o.amount, 'confirmed': True, 'acc': 0})
         funding = [env.accounts[0]] if rng.random() < 0.7 or mode != 'general' else list(env.accounts)
         fset = {0} if len(funding) == 1 else {0, 1}
         # some coins reserved beforehand
@@ -177,6 +186,15 @@ def one_case(ctx, base, k, rng):
             strat = 'sqlite' if rng.random() < 0.7 else strat
             ledger.coin_selection_strategy = strat
             req = [Output.pay_pubkey_hash(rng.choice([10 ** 6 + 600_000, 10 ** 8 + 500_000, 2 * 10 ** 6]), b'\x09' * 20)]
+        if mode == 'draw-band':
+            pre = []
+            if strat == 'sqlite':
+                strat = rng.choice([None, 'standard', 'prefer_confirmed', 'random_draw'])
+                ledger.coin_selection_strategy = strat
+            j = rng.randrange(1, len(coins))
+            nominal = sum(c['amount'] for c in coins[:j])
+            x = rng.randrange(-2000, j * 148 * rate + 2000)
+            req = [Output.pay_pubkey_hash(max(1, nominal - 88 * rate - x), b'\x09' * 20)]
         if mode == 'dusty':
             pre = []
             req = [Output.pay_pubkey_hash(coins[0]['eff'] // 2, b'\x09' * 20)]
